@@ -126,16 +126,35 @@ Record MWf_at (s : cstate) (r : dirent) (rids mfids dids : list N) : Prop := mkM
 }.
 
 (* room for [k] more mini sectors without touching the FAT: from the free
-   list first, then appended within the retained capacity *)
+   list first, then appended within the retained capacity; an appended mini
+   sector lengthens the mini stream, and the root entry must be able to record
+   that length (append_mini_sector refuses otherwise: a version 3 entry keeps 32
+   bits; the other half of that test, MAX_REGULAR_SECTOR sectors, follows from
+   the third conjunct, see [mroom_append_bound]) *)
 Definition mroom (s : cstate) (rids mfids : list N) (k : N) : Prop :=
   k <= lenN (mfree s) \/
   (4 * (lenN (minifat s) + (k - lenN (mfree s))) <= slen s * lenN mfids /\
    64 * (lenN (minifat s) + (k - lenN (mfree s))) <= slen s * lenN rids /\
-   lenN (minifat s) + (k - lenN (mfree s)) <= MAX_REGULAR_SECTOR + 1).
+   lenN (minifat s) + (k - lenN (mfree s)) <= MAX_REGULAR_SECTOR + 1 /\
+   64 * (lenN (minifat s) + (k - lenN (mfree s))) <= stream_len_mask (ver s)).
 
 Lemma mroom_le : forall s rids mfids k k', k' <= k ->
   mroom s rids mfids k -> mroom s rids mfids k'.
-Proof. intros s rids mfids k k' H [H1|(H1 & H2 & H3)]; [left; lia | right; repeat split; lia]. Qed.
+Proof. intros s rids mfids k k' H [H1|(H1 & H2 & H3 & H4)]; [left; lia | right; repeat split; lia]. Qed.
+
+(* the test of append_mini_sector passes *)
+Lemma mroom_append_bound : forall s n,
+  n <= MAX_REGULAR_SECTOR + 1 -> 64 * n <= stream_len_mask (ver s) ->
+  64 * n <= N.min (MAX_REGULAR_SECTOR * slen s) (stream_len_mask (ver s)).
+Proof.
+  intros s n H1 H2. apply N.min_glb; [|exact H2].
+  rewrite MAXREG_val in *. destruct (slen_cases s) as [E|E]; rewrite E; lia.
+Qed.
+
+Lemma slen_ver : forall s s', slen s' = slen s -> ver s' = ver s.
+Proof.
+  intros s s'. unfold slen. destruct (ver s), (ver s'); try reflexivity; vm_compute; discriminate.
+Qed.
 
 Lemma mroom_0 : forall s r rids mfids dids,
   MWf_at s r rids mfids dids -> mroom s rids mfids 0.
@@ -387,18 +406,20 @@ Proof.
     intros k Hk. unfold mroom in Hk |- *. rewrite Emf, lenN_app in Hk. cbn [lenN] in Hk.
     rewrite Hmfr, Hlen'.
     pose proof (same_shape_slen _ _ Hsh0) as Hsl. rewrite Hsl.
-    destruct Hk as [Hk|(Hk1 & Hk2 & Hk3)]; [left; lia|].
+    destruct Hk as [Hk|(Hk1 & Hk2 & Hk3 & Hk4)]; [left; lia|].
     destruct (N.le_gt_cases k (lenN l1)) as [Hle|Hgt]; [left; exact Hle|].
     right. replace (k - lenN l1) with (k + 1 - (lenN l1 + N.succ 0)) by lia.
+    destruct Hsh0 as (_ & Hv0 & _). rewrite Hv0.
     repeat split; assumption.
   - (* nothing free: append within the retained capacity *)
     apply lastN_nil_inv in Elast.
     assert (Hcap : 4 * (lenN (minifat s) + 1) <= slen s * lenN mfids /\
                    64 * (lenN (minifat s) + 1) <= slen s * lenN rids /\
-                   lenN (minifat s) + 1 <= MAX_REGULAR_SECTOR + 1).
+                   lenN (minifat s) + 1 <= MAX_REGULAR_SECTOR + 1 /\
+                   64 * (lenN (minifat s) + 1) <= stream_len_mask (ver s)).
     { unfold mroom in Hroom. rewrite Elast in Hroom. cbn [lenN] in Hroom.
       destruct Hroom as [H|H]; [lia|]. replace (1 - 0) with 1 in H by lia. exact H. }
-    destruct Hcap as (Hmcap & Hrcap & Hbcap).
+    destruct Hcap as (Hmcap & Hrcap & Hbcap & Hfit).
     pose proof (slen_pos s) as Hslp.
     assert (Hmne : mfids <> []) by (intros ->; cbn [lenN] in Hmcap; lia).
     assert (Hrne : rids <> []) by (intros ->; cbn [lenN] in Hrcap; lia).
@@ -460,6 +481,11 @@ Proof.
         assert (Emod : d_len r mod MINI_SECTOR_LEN = 0).
         { rewrite (mw_rlen _ _ _ _ _ W). unfold MINI_SECTOR_LEN. lia. }
         rewrite Emod. cbn [N.eqb negb]. rewrite bind_ret.
+        rewrite bind_get.
+        pose proof (mroom_append_bound s _ Hbcap Hfit) as Hbd.
+        destruct (N.min (MAX_REGULAR_SECTOR * slen s) (stream_len_mask (ver s)) <? d_len r + MINI_SECTOR_LEN) eqn:Eb;
+          [apply N.ltb_lt in Eb; rewrite (mw_rlen _ _ _ _ _ W) in Eb; unfold MINI_SECTOR_LEN in Eb; lia|].
+        rewrite bind_ret.
         destruct (d_start r =? END_OF_CHAIN) eqn:Er; [apply N.eqb_eq in Er; contradiction|].
         assert (Hns : (do c <- chain_new (d_start r) IZero;
                        do s0 <- get;
@@ -504,9 +530,65 @@ Proof.
     intros k Hk. unfold mroom in Hk |- *. rewrite Elast in Hk. cbn [lenN] in Hk.
     rewrite Hmfr2, Hlen2'. cbn [lenN].
     pose proof (same_shape_slen _ _ Hsh02) as Hsl. rewrite Hsl.
-    destruct Hk as [Hk|(Hk1 & Hk2 & Hk3)]; [lia|].
+    destruct Hk as [Hk|(Hk1 & Hk2 & Hk3 & Hk4)]; [lia|].
     right. replace (lenN (minifat s) + 1 + (k - 0)) with (lenN (minifat s) + (k + 1 - 0)) by lia.
+    destruct Hsh02 as (_ & Hv02 & _). rewrite Hv02.
     repeat split; assumption.
+Qed.
+
+(* the refusal at the bound.  allocate_mini_sector may extend the MiniFAT chain
+   BEFORE append_mini_sector runs its test; in a well-formed state that never
+   precedes a refusal: the test fails only when the MiniFAT has 2^26 - 1 entries
+   (version 3; never in version 4), which does not fill whole MiniFAT sectors,
+   so the chain is not extended and the state is returned as it was *)
+Lemma alloc_mini_refused_unchanged : forall s v r rids mfids dids,
+  MWf_at s r rids mfids dids -> mfree s = [] ->
+  d_len r <= stream_len_mask (ver s) ->
+  N.min (MAX_REGULAR_SECTOR * slen s) (stream_len_mask (ver s)) < d_len r + MINI_SECTOR_LEN ->
+  allocate_mini_sector v s = (s, Err EInvalidInput).
+Proof.
+  intros s v r rids mfids dids W Hmfree Hfits Hover.
+  pose proof (mw_rlen _ _ _ _ _ W) as Hrlen.
+  pose proof (mw_mcap _ _ _ _ _ W) as Hmcap.
+  pose proof (mw_bound _ _ _ _ _ W) as Hbd.
+  rewrite Hrlen in Hfits, Hover. unfold MINI_SECTOR_LEN in Hover. rewrite MAXREG_val in *.
+  (* version 3, 2^26 - 1 entries, and the MiniFAT chain has room for one more *)
+  assert (Hn : lenN (minifat s) = 67108863 /\ slen s = 512 /\ lenN (minifat s) < lenN mfids * (slen s / 4)).
+  { unfold slen, stream_len_mask in *. destruct (ver s).
+    - change V3_STREAM_LEN_MASK with 4294967295 in *. change (sector_len V3) with 512 in *.
+      change (512 / 4) with 128.
+      assert (lenN (minifat s) = 67108863) by lia. repeat split; try assumption; lia.
+    - change V4_STREAM_LEN_MASK with 18446744073709551615 in *. change (sector_len V4) with 4096 in *. lia. }
+  destruct Hn as (Hn & Hsl & Hroom).
+  assert (Hmne : mfids <> []) by (intros ->; cbn [lenN] in Hroom; lia).
+  destruct (StoreProofs.chain_ids_head _ _ _ (mw_mch _ _ _ _ _ W) Hmne) as [Hms _].
+  unfold allocate_mini_sector. rewrite bind_get.
+  assert (Hpop : pop_free_mini (S (length (mfree s))) s = (s, Ok None)).
+  { cbn [pop_free_mini]. rewrite bind_get, Hmfree. reflexivity. }
+  rewrite (bind_exec _ _ _ _ _ Hpop). rewrite bind_get.
+  destruct (minifat_start s =? END_OF_CHAIN) eqn:Es; [apply N.eqb_eq in Es; contradiction|].
+  assert (Hgrow : (do c <- chain_new (minifat_start s) IFat;
+                   if lenN (c_ids c) * (slen s / 4) <=? lenN (minifat s)
+                   then do _ <- extend_chain (minifat_start s) IFat;
+                        do c2 <- chain_new (minifat_start s) IFat;
+                        header_write HDR_OFF_NUM_MINIFAT (le_bytes 4 (lenN (c_ids c2)))
+                   else ret tt) s = (s, Ok tt)).
+  { rewrite (bind_exec _ _ _ _ _ (chain_new_exec s _ IFat mfids (mw_mch _ _ _ _ _ W))). cbn [c_ids].
+    destruct (lenN mfids * (slen s / 4) <=? lenN (minifat s)) eqn:E; [lia | reflexivity]. }
+  rewrite (bind_exec _ _ _ _ _ Hgrow). rewrite bind_get. cbv zeta.
+  rewrite (bind_exec _ _ _ _ _ (dir_entry_exec s _ r (mw_root _ _ _ _ _ W) : root_entry s = (s, Ok r))).
+  replace (d_len r <? (lenN (minifat s) + 1) * MINI_SECTOR_LEN) with true
+    by (symmetry; apply N.ltb_lt; rewrite Hrlen; unfold MINI_SECTOR_LEN; lia).
+  assert (Happ : append_mini_sector s = (s, Err EInvalidInput)).
+  { unfold append_mini_sector, root_entry.
+    rewrite (bind_exec _ _ _ _ _ (dir_entry_exec s _ r (mw_root _ _ _ _ _ W))).
+    assert (Emod : d_len r mod MINI_SECTOR_LEN = 0).
+    { rewrite Hrlen. unfold MINI_SECTOR_LEN. lia. }
+    rewrite Emod. cbn [N.eqb negb]. rewrite bind_ret. rewrite bind_get.
+    replace (N.min (MAX_REGULAR_SECTOR * slen s) (stream_len_mask (ver s)) <? d_len r + MINI_SECTOR_LEN) with true
+      by (symmetry; apply N.ltb_lt; rewrite Hrlen, MAXREG_val; unfold MINI_SECTOR_LEN; exact Hover).
+    reflexivity. }
+  unfold bind at 1. rewrite Happ. reflexivity.
 Qed.
 
 (* ------------------------------------------------------------------ *)
@@ -522,7 +604,7 @@ Definition extend_or_begin (mids : list N) : M N :=
 Lemma mroom_same : forall s s' rids mfids k,
   lenN (minifat s') = lenN (minifat s) -> mfree s' = mfree s -> slen s' = slen s ->
   mroom s rids mfids k -> mroom s' rids mfids k.
-Proof. intros s s' rids mfids k H1 H2 H3 H. unfold mroom in *. rewrite H1, H2, H3. exact H. Qed.
+Proof. intros s s' rids mfids k H1 H2 H3 H. unfold mroom in *. rewrite H1, H2, H3, (slen_ver _ _ H3). exact H. Qed.
 
 Lemma mini_extend_step : forall s mids r rids mfids dids id,
   MWf_at s r rids mfids dids ->
@@ -1831,9 +1913,10 @@ Lemma mini_room_capacity : forall s r rids mfids dids k,
   4 * (lenN (minifat s) + k) <= slen s * lenN mfids ->
   64 * (lenN (minifat s) + k) <= slen s * lenN rids ->
   lenN (minifat s) + k <= MAX_REGULAR_SECTOR + 1 ->
+  64 * (lenN (minifat s) + k) <= stream_len_mask (ver s) ->
   mini_room s k.
 Proof.
-  intros s r rids mfids dids k SW H1 H2 H3.
+  intros s r rids mfids dids k SW H1 H2 H3 H4.
   exists r, rids, mfids, dids. split; [exact SW|]. right. repeat split; lia.
 Qed.
 
@@ -2203,7 +2286,8 @@ Definition mini_room_b (s : cstate) (k : N) : bool :=
       (k <=? lenN (mfree s)) ||
       ((4 * (lenN (minifat s) + (k - lenN (mfree s))) <=? slen s * lenN mfids) &&
        (64 * (lenN (minifat s) + (k - lenN (mfree s))) <=? slen s * lenN rids) &&
-       (lenN (minifat s) + (k - lenN (mfree s)) <=? MAX_REGULAR_SECTOR + 1))
+       (lenN (minifat s) + (k - lenN (mfree s)) <=? MAX_REGULAR_SECTOR + 1) &&
+       (64 * (lenN (minifat s) + (k - lenN (mfree s))) <=? stream_len_mask (ver s)))
     | _, _ => false
     end
   | None => false
@@ -2217,6 +2301,7 @@ Proof.
   rewrite (mw_root _ _ _ _ _ W), (mw_rch _ _ _ _ _ W), (mw_mch _ _ _ _ _ W) in H.
   exists r, rids, mfids, dids. split; [exact SW|].
   apply orb_true_iff in H. destruct H as [H|H]; [left; apply N.leb_le; exact H|].
+  apply andb_true_iff in H. destruct H as [H H4].
   apply andb_true_iff in H. destruct H as [H H3].
   apply andb_true_iff in H. destruct H as [H1 H2].
   right. repeat split; apply N.leb_le; assumption.
@@ -4147,6 +4232,7 @@ Theorem allocate_mini_extends_container : forall s r rids mfids dids v sid,
   4 * (lenN (minifat s) + 1) <= slen s * lenN mfids ->
   64 * lenN (minifat s) = slen s * lenN rids -> rids <> [] ->
   lenN (minifat s) <= MAX_REGULAR_SECTOR ->
+  64 * (lenN (minifat s) + 1) <= stream_len_mask (ver s) ->
   lastN (free s) = Some sid ->
   exists s' r',
     allocate_mini_sector v s = (s', Ok (lenN (minifat s))) /\
@@ -4158,7 +4244,7 @@ Theorem allocate_mini_extends_container : forall s r rids mfids dids v sid,
        mini_bytes s' (rids ++ [sid]) ms = mini_bytes s rids ms) /\
     mini_bytes s' (rids ++ [sid]) (lenN (minifat s)) = repeatN 0 64.
 Proof.
-  intros s r rids mfids dids v sid SW Hmfree Hmcap Hfull Hrne Hbound Hlast.
+  intros s r rids mfids dids v sid SW Hmfree Hmcap Hfull Hrne Hbound Hfit Hlast.
   pose proof (sw_m _ _ _ _ _ _ SW) as W.
   pose proof (sw_alloc _ _ _ _ _ _ SW) as Wa.
   pose proof (slen_pos s) as Hsp.
@@ -4275,6 +4361,11 @@ Proof.
       assert (Emod : d_len r mod MINI_SECTOR_LEN = 0).
       { rewrite (mw_rlen _ _ _ _ _ W). unfold MINI_SECTOR_LEN. lia. }
       rewrite Emod. cbn [N.eqb negb]. rewrite bind_ret.
+      rewrite bind_get.
+      pose proof (mroom_append_bound s (lenN (minifat s) + 1) ltac:(lia) Hfit) as Hbd.
+      destruct (N.min (MAX_REGULAR_SECTOR * slen s) (stream_len_mask (ver s)) <? d_len r + MINI_SECTOR_LEN) eqn:Eb;
+        [apply N.ltb_lt in Eb; rewrite (mw_rlen _ _ _ _ _ W) in Eb; unfold MINI_SECTOR_LEN in Eb; lia|].
+      rewrite bind_ret.
       destruct (d_start r =? END_OF_CHAIN) eqn:Er; [apply N.eqb_eq in Er; contradiction|].
       assert (Hns : (do c <- chain_new (d_start r) IZero;
                      do s0 <- get;
